@@ -27,6 +27,8 @@ Fixpoint usz (fuel : nat) (t : yty) : N :=
           | YHashed t' => 1 + usz f t'
           | YRefRaw t' => usz f t'
           | YNoLib t' => usz f t'
+          | YPeek _ t0 t1 => usz f t0 + usz f t1
+          | YOpenStruct fs => fold_right (fun t1 a => usz f t1 + a) 0 fs
           | _ => 0
           end
   end.
@@ -45,6 +47,8 @@ Fixpoint yfits (fuel : nat) (t : yty) : bool :=
       | YHashmapAug _ _ v e => yfits f v && yfits f e
       | YBinTree _ v => yfits f v
       | YHashed t' | YRefRaw t' | YNoLib t' => yfits f t'
+      | YPeek _ t0 t1 => yfits f t0 && yfits f t1
+      | YOpenStruct fs => forallb (yfits f) fs
       | YNamed _ => false
       | _ => true
       end
@@ -150,7 +154,7 @@ Proof.
   cbn [ydec]. lazy zeta. unfold no_resolver.
   (* the tick and the library check (no resolver: a library cell is an error) *)
   assert (Hhead : forall u r, dpost u s (tickc st) r ->
-            dpost (1 + u) s st (if is_lib (yk s) && negb (match t with YRawCell | YAny => true | _ => false end)
+            dpost (1 + u) s st (if is_lib (yk s) && negb (match t with YRawCell | YAny | YOpenStruct _ | YRefRaw _ => true | _ => false end)
                                 then (if (match t with YNoLib _ => true | _ => false end) then yerr ETlb (tickc st)
                                       else if negb (hk (cell_of s)) then yerr ETlb (tickc st) else yerr ETlb (tickc st))
                                 else r)).
@@ -477,5 +481,27 @@ Proof.
     apply (Hthen_ref t false (@nil bool, s) (tickc st) Hfit (ysub_refl s)).
   - (* YNoLib *)
     apply (Hsubcall t s (tickc st) Hfit (ysub_refl s)).
+  - (* YPeek *)
+    apply andb_prop in Hfit. destruct Hfit as [Hf0 Hf1].
+    apply ypost_if; [apply ypost_err; discriminate|].
+    apply ypost_if.
+    + eapply dpost_weaken; [apply (Hsubcall t2 s (tickc st) Hf1 (ysub_refl s)) | lia].
+    + eapply dpost_weaken; [apply (Hsubcall t1 s (tickc st) Hf0 (ysub_refl s)) | lia].
+  - (* YOpenStruct *)
+    assert (Hgo : forall fs0, forallb (yfits f) fs0 = true -> forall s0 st0, ysub s0 s ->
+              dpost (fold_right (fun t1 a => usz f t1 + a) 0 fs0) s st0
+                ((fix go (fs : list yty) (s : ys) (st : ct) : yres ys :=
+                    match fs with
+                    | [] => yret s st
+                    | t1 :: ft => doy (s1, st) <- ydec env hk no_resolver f t1 s st; go ft s1 st
+                    end) fs0 s0 st0)).
+    { induction fs0 as [ | t1 ft IHf]; intros Hff s0 st0 Hs0.
+      - apply ypost_ret. exact Hs0.
+      - cbn [forallb] in Hff. apply andb_prop in Hff. destruct Hff as [Hf1 Hft].
+        cbn [fold_right]. unfold dpost. rewrite wt_add.
+        eapply ypost_bind with (P := fun s1 => ysub s1 s).
+        + apply (Hsubcall t1 s0 st0 Hf1 Hs0).
+        + intros s1 st1 Hs1. apply (IHf Hft s1 st1 Hs1). }
+    apply (Hgo fs Hfit s (tickc st) (ysub_refl s)).
 Qed.
 End Main.
